@@ -63,7 +63,7 @@ var c05PostMutations = []Defect{
 	{Name: "as-redirect"}, {Name: "add-signature-param", Param: "QUJD"}, {Name: "add-signature-param", Param: "!!"}, {Name: "add-sigalg-param"},
 	{Name: "dup-signature-element"}, {Name: "add-child-after-signing"}, {Name: "remove-keyinfo"}, {Name: "change-relaystate"},
 	{Name: "deflate-polyglot"}, {Name: "deflate-polyglot"}, {Name: "repeat-in-query"},
-	{Name: "relabel-charset", Param: "ISO-8859-1"}, {Name: "relabel-charset", Param: "windows-1252"}, {Name: "relabel-charset", Param: "UTF-16"},
+	{Name: "relabel-charset", Param: "ISO-8859-1"}, {Name: "relabel-charset", Param: "windows-1252"}, {Name: "relabel-charset", Param: "UTF-16"}, {Name: "relabel-charset", Param: "latin1"}, {Name: "relabel-charset", Param: "ISO-8859-15"}, {Name: "relabel-charset", Param: "iso-8859-1"},
 }
 
 var c05RedirectMutations = []Defect{
@@ -174,6 +174,10 @@ func genC05Case(t *rapid.T) C05Case {
 	}
 	for i := 0; i < n; i++ {
 		c.Mut = append(c.Mut, pick(t, "mutation", cat))
+	}
+	if c.has("relabel-charset") {
+		// there is something to misread: the provider's name is not ASCII
+		c.Orig.ProviderName = "Café Zürich – ünï"
 	}
 	if encOnly {
 		c.Mut = []Defect{{Name: rapid.SampledFrom([]string{"rogue-key", "rogue-key-no-keyinfo"}).Draw(t, "encmut")}}
@@ -728,6 +732,10 @@ func c05Run(c C05Case) c05Outcome {
 	sent := evalSent(c.Spec, func(string) bool { return true }, c.Host, rd.HR, now)
 	// the SP whose rules apply is the one named by the Issuer of what was sent
 	spIdx := sent.IssuerSP
+	if spIdx < 0 && sent.Doc == nil && c.has("relabel-charset") {
+		// the strict reader does not follow a declaration into another encoding; the issuer is the model's (ASCII either way)
+		spIdx = c.SP
+	}
 	out.required = c.Spec.IdP.WantsSigned() || (spIdx >= 0 && c.Spec.SPs[spIdx].RequiresSigned())
 	if !out.accepted {
 		return out
